@@ -249,6 +249,142 @@ Theorem C15_tag_schema :
 Proof. exact tag_schema_spec. Qed.
 Print Assumptions C15_tag_schema.
 
+(* ---------- Repository.Referrers: capability detection around the two paths ---------- *)
+
+(* api = the run of referrersByAPI, ts = the run of referrersByTagSchema.  The callback
+   arguments come from exactly one of the two paths (the tag schema is run from the unknown
+   state only when the API answered "unsupported" before anything was delivered); the
+   capability never changes once set; from unknown it becomes supported exactly on a
+   successful API listing and unsupported exactly when the tag schema was used. *)
+Theorem C15_referrers_capability :
+  forall st cbu (api : trace) ts,
+    let w := referrers_wrap st cbu api ts in
+    ((w_fell_back w = false /\ w_pages w = t_pages api /\ w_out w = t_out api) \/
+     (w_fell_back w = true /\ w_pages w = fst (ts 0%nat) /\ w_out w = snd (ts 0%nat) /\
+      (st = RUnknown -> t_pages api = [] /\ unsupported_class cbu (t_out api) = true))) /\
+    (st <> RUnknown -> w_state w = st) /\
+    (st = RUnknown ->
+       (w_state w = RSupported <-> t_out api = Done) /\
+       (w_state w = RUnsupported <-> w_fell_back w = true) /\
+       (w_state w = RUnknown <-> (t_out api <> Done /\ w_fell_back w = false))) /\
+    (st = RUnsupported -> w_fell_back w = true) /\
+    (st = RSupported -> w_fell_back w = false).
+Proof. exact wrap_spec. Qed.
+Print Assumptions C15_referrers_capability.
+
+(* whatever the callback's error is (also one of the class errdef.ErrUnsupported), it is
+   what Referrers returns, and no callback is invoked afterwards *)
+Theorem C15_referrers_callback_error :
+  forall serve resolve cb_fail c fuel u st cbu ts,
+    st <> RUnsupported ->
+    let api := loop serve resolve cb_fail c fuel 0 0 u [] in
+    t_out api = ErrCallback ->
+    let w := referrers_wrap st cbu api ts in
+    w_out w = ErrCallback /\ w_pages w = t_pages api /\ w_fell_back w = false.
+Proof. exact wrap_callback_error. Qed.
+Print Assumptions C15_referrers_callback_error.
+
+(* end to end, unknown capability, registry with the referrers API (hypotheses of C15_filter):
+   exactly the requested referrers, capability becomes supported, no tag schema *)
+Theorem C15_referrers_unknown_with_api :
+  forall (L : list item) (cap : nat) (ds : nat -> decision)
+         (render : nat -> url -> url -> str) (trailer : nat -> str)
+         (resolve : url -> str -> option url) (c : cfg) (path : str) (fuel : nat) cbu ts,
+    c_kind c = KReferrers ->
+    NoDup (map fst L) -> (forall it, In it L -> fst it <> []) ->
+    (forall i base x, In x (map fst L) ->
+       contains c_gt (render i base (link_target (ds i) base x)) = false) ->
+    (forall i base x, In x (map fst L) ->
+       resolve base (render i base (link_target (ds i) base x)) = Some (link_target (ds i) base x)) ->
+    (forall i, (Z.of_N (d_doc_len (ds i)) <= eff_limit (c_limit c))%Z) ->
+    (forall i, qget k_at (d_extra (ds i)) = None) ->
+    (length L < fuel)%nat ->
+    let api := loop (reg_serve KReferrers L cap ds render trailer) resolve (fun _ => false) c
+                    fuel 0 0 (mkUrl path (referrers_query (c_at c))) [] in
+    let w := referrers_wrap RUnknown cbu api ts in
+    w_out w = Done /\ concat (w_pages w) = filter_referrers L (c_at c) /\
+    w_state w = RSupported /\ w_fell_back w = false.
+Proof. exact referrers_unknown_with_api. Qed.
+Print Assumptions C15_referrers_unknown_with_api.
+
+(* unknown capability, registry answering the referrers endpoint with a plain 404: one API
+   request, then exactly the tag-schema result (C15_tag_schema), capability unsupported *)
+Theorem C15_referrers_unknown_without_api :
+  forall (serve : nat -> url -> response) (resolve : url -> str -> option url) (c : cfg)
+         (cb_fail : nat -> bool) (u : url) (fuel : nat) cbu found size items,
+    c_kind c = KReferrers -> (0 < fuel)%nat ->
+    (forall i rq, rs_status (serve i rq) = 404 /\ rs_name_unknown (serve i rq) = false) ->
+    let api := loop serve resolve cb_fail c fuel 0 0 u [] in
+    let ts := fun k => tag_schema (c_limit c) found size items (c_at c) (fun j => cb_fail (k + j)%nat) in
+    let w := referrers_wrap RUnknown cbu api ts in
+    length (w_reqs w) = 1%nat /\ w_fell_back w = true /\ w_state w = RUnsupported /\
+    w_pages w = fst (ts 0%nat) /\ w_out w = snd (ts 0%nat).
+Proof. exact referrers_unknown_without_api. Qed.
+Print Assumptions C15_referrers_unknown_without_api.
+
+(* the code before the fix (model referrers_wrap_prefix): a callback error of the unsupported
+   class was swallowed, the tag schema run, a referrer delivered twice, success returned *)
+Theorem C15_referrers_fallback_refuted :
+  exists (cb_fail : nat -> bool),
+    let api := loop (reg_serve KReferrers wit_L 5 wit_ds wit_render (fun _ => [])) wit_resolve
+                    cb_fail wit_cfg 9 0 0 wit_u [] in
+    let w := referrers_wrap_prefix RUnknown true api (wit_ts cb_fail) in
+    t_out api = ErrCallback /\ w_out w = Done /\ w_state w = RUnsupported /\
+    ~ NoDup (map fst (concat (w_pages w))).
+Proof. exact wrap_prefix_refuted. Qed.
+Print Assumptions C15_referrers_fallback_refuted.
+
+(* the referrers response must carry exactly the index media type (no parameters, no other
+   spelling); a 404 means "no referrers API" unless it says NAME_UNKNOWN *)
+Theorem C15_content_type_exact :
+  forall c rs, c_kind c = KReferrers -> rs_status rs = 200 ->
+    (rs_ctype rs <> mediaTypeImageIndex -> handle c rs = inl ErrCType) /\
+    (forall p, handle c rs = inr p -> rs_ctype rs = mediaTypeImageIndex).
+Proof. exact handle_ctype. Qed.
+Print Assumptions C15_content_type_exact.
+
+Theorem C15_referrers_404 :
+  forall c rs, c_kind c = KReferrers -> rs_status rs = 404 ->
+    handle c rs = inl (if rs_name_unknown rs then ErrStatus else ErrUnsupported).
+Proof. exact handle_404. Qed.
+Print Assumptions C15_referrers_404.
+
+(* pingReferrers agrees with Referrers: a known capability is returned without change; from
+   the unknown state "unsupported" is answered exactly for the responses that the referrers
+   listing reads as "no referrers API", "supported" exactly for 200 + index media type, and
+   the capability is set accordingly (errors leave it unknown) *)
+Theorem C15_ping_agrees :
+  forall st rs c,
+    c_kind c = KReferrers ->
+    (st = RSupported -> ping st rs = (st, Some true)) /\
+    (st = RUnsupported -> ping st rs = (st, Some false)) /\
+    (st = RUnknown ->
+       (snd (ping st rs) = Some false <->
+          (handle c rs = inl ErrUnsupported \/ handle c rs = inl ErrCType)) /\
+       (snd (ping st rs) = Some true <-> (rs_status rs = 200 /\ rs_ctype rs = mediaTypeImageIndex)) /\
+       (fst (ping st rs) = RUnsupported <-> snd (ping st rs) = Some false) /\
+       (fst (ping st rs) = RSupported <-> snd (ping st rs) = Some true) /\
+       (fst (ping st rs) = RUnknown <-> snd (ping st rs) = None)).
+Proof. exact ping_spec. Qed.
+Print Assumptions C15_ping_agrees.
+
+(* ---------- several link-values / Link lines ---------- *)
+
+(* Only the first Link line is read (rs_link = hd), and of it the first "<...>"
+   (C15_parse_link): whatever follows the next link -- further link-values, further lines --
+   does not matter (C15_exactly_once quantifies over the trailer).  A link-value of another
+   relation type BEFORE the next link is followed instead of it (known finding
+   link-rel-ignored): the listing re-reads the first page and does not end. *)
+Theorem C15_link_rel_first_refuted :
+  exists fuel,
+    let t := loop relfirst_serve wit_resolve (fun _ => false) (mkCfg KTags 0 0 []) fuel 0 0
+                  (mkUrl (b "/v2/r/tags/list") []) [] in
+    t_out t = OutOfFuel /\ ~ NoDup (map fst (concat (t_pages t))) /\
+    (forall rq, In rq (t_reqs t) -> exists pre, rs_link (relfirst_serve 0 rq) =
+         pre ++ c_lt :: b "a" ++ c_gt :: b "; rel=""next""").
+Proof. exact link_rel_first_refuted. Qed.
+Print Assumptions C15_link_rel_first_refuted.
+
 (* ---------- content/oci ---------- *)
 
 (* listTags: ascending; each non-digest reference greater than last exactly as often as the
